@@ -1,12 +1,12 @@
 /-
-  Machine-checked WITNESS for the lifecycle gap of overtaken speculative jobs
-  that is still present in src/expand.c (DESIGN 7.1 F4): a concrete reachable
-  state of `Model.SchedD`, found by `lbzdrv schedd-find`, replayed here by
-  kernel evaluation.  After a repair of the C code (and of the model) it must
-  stop compiling.  The former F2 / F5 witnesses are gone with commit 7623822
-  (`discard()`); the runs that used to exhibit them are kept as examples of
-  the repaired behaviour (`f5_repaired`, `f2_repaired`) and the restored
-  statements are proved in Lemmas/SchedD/Attach.lean and Leak.lean.
+  The runs of `Model.SchedD` that used to be machine-checked WITNESSES of the
+  lifecycle gaps of overtaken speculative jobs (DESIGN 7.1 F2, F4, F5), found
+  by `lbzdrv schedd-find`.  All three gaps are repaired in the C code (/repo
+  commits 7623822 and b64cc56) and in the model; the witnesses no longer hold
+  and are gone.  The same runs are replayed here by kernel evaluation as
+  examples of the repaired behaviour (`f2_repaired`, `f4_repaired`,
+  `f5_repaired`); the restored statements are proved for all reachable states
+  in Lemmas/SchedD/Attach.lean, Leak.lean and UnordCap.lean.
 -/
 import LbzVerif.Model.SchedD
 
@@ -35,12 +35,12 @@ def traceF5 : List Label :=
 
 /-- the former F5 run: the overtaken speculative job (it would continue at
     offset 4 < head_offs = 6) is now discarded: `retr_q` holds no job behind
-    `head_offs`, the work unit is back, and its unord_blk stays in unord_q
-    marked complete (a stale entry) until the parser pops it. -/
+    `head_offs`, the work unit is back, and its unord_blk has left unord_q
+    with it. -/
 theorem f5_repaired :
     (run cfgF5 (init cfgF5) traceF5).any
       (fun s => !staleAttach cfgF5 s && decide (headOffs cfgF5 s = 6) && s.retrQ.all (fun j => j.ub.isNone)
-                && decide (unordSize s = 1) && decide (staleCount s = 1)) = true := by
+                && decide (unordSize s = 0)) = true := by
   decide +kernel
 
 /-- the same block, with a spurious candidate (an immediate decode error) in
@@ -63,12 +63,13 @@ def traceF4 : List Label :=
    .retrEnd ⟨6, 1, none, false⟩ (some 3),
    .retrStart ⟨8, 1, none, false⟩, .scanStart 8, .scanEnd 8 4]
 
-/-- F4: after `traceF4`, `unord_q` holds 4 entries, capacity 3; three of them
-    are stale (their job was dropped by `advance()`), hold no resource. -/
-theorem f4_run :
+/-- the former F4 run (three speculative jobs dropped by `advance()` before they
+    ran, a fourth one just created): the dropped jobs' entries have left
+    unord_q with them; one entry is queued, capacity 3. -/
+theorem f4_repaired :
     (run cfgF4 (init cfgF4) traceF4).any
-      (fun s => decide (unordSize s = 4) && decide (unordCapOf cfgF4 = 3)
-                && decide (staleCount s = 3)) = true := by
+      (fun s => decide (unordSize s = 1) && decide (unordCapOf cfgF4 = 3)
+                && decide (s.orphans = [])) = true := by
   decide +kernel
 
 def traceF2 : List Label :=
